@@ -104,7 +104,7 @@ func isFaultMsg(m string) bool {
 
 // runEntries calls every entry on the text in one goroutine; the watchdog covers the whole series, the entry
 // in progress when it expires is the one that hangs.
-func runEntries(text string) (res []outcome, hung int) {
+func runEntries(text string, limit time.Duration) (res []outcome, hung int) {
 	res = make([]outcome, len(entries))
 	var progress int32
 	finished := make(chan struct{})
@@ -138,7 +138,7 @@ func runEntries(text string) (res []outcome, hung int) {
 			}()
 		}
 	}()
-	timer := time.NewTimer(watchdog)
+	timer := time.NewTimer(limit)
 	defer timer.Stop()
 	select {
 	case <-finished:
@@ -220,7 +220,12 @@ func c06Finding(class, what string, c *Case, extra map[string]any) {
 func (w *work) judgeC06() {
 	c := w.c
 	text := string(c.Text)
-	res, hung := runEntries(text)
+	res, hung := runEntries(text, watchdog)
+	if hung >= 0 {
+		// a loaded machine can stall a goroutine for seconds: a hang is reported only when the text,
+		// run again on its own, does not answer within ten times the watchdog either
+		res, hung = runEntries(text, 10*watchdog)
+	}
 	if hung >= 0 {
 		c06Finding("hang:"+entries[hung].name, fmt.Sprintf("%s does not answer within %v on %s", entries[hung].name, watchdog, q(c.Text)), c, nil)
 		rep.Count("c06.hang", 1)
